@@ -578,6 +578,23 @@ func (x *Exec) autoCandidates(fr *frame, li *loopInfo, pre, st *State, entryAllo
 			for _, k2 := range k2s {
 				k2 := k2
 				v2 := pre.cells[k2]
+				// against other integer variables of the same type that the loop leaves alone
+				if len(v2.L) == 1 && v2.L[0].Sort == c.INT() && k2 != k && k2.a.Comment != "" && types.Identical(v2.T, pv.T) {
+					if _, isInt := intInfoOf(v2.T); isInt {
+						modified := false
+						for _, mk := range cells {
+							if mk == k2 {
+								modified = true
+							}
+						}
+						if !modified {
+							n2 := k2.a.Comment
+							add(name+" <= "+n2, func(s *State) Term { return c.Cmp(token.LEQ, s.cells[k].L[0], s.cells[k2].L[0], pv.T) })
+							add(name+" < "+n2, func(s *State) Term { return c.Cmp(token.LSS, s.cells[k].L[0], s.cells[k2].L[0], pv.T) })
+						}
+					}
+					continue
+				}
 				if _, isSl := v2.T.Underlying().(*types.Slice); !isSl || len(v2.L) != 4 {
 					continue
 				}
